@@ -1,6 +1,6 @@
 CONSTANTS MinVars = 1 MaxVars = 6 MaxLen = 3
   Seps = {"/", "-", "_", "~", "."} Letters = {"a", "b"} ValueSeps = {".", "/"}
   Tails = {"plain", "multi", "single"} Leads = {TRUE} WithCommon = FALSE WithWild = TRUE
-  Perturbs = {"trunc", "junk"} ValueMode = "probe" Part = "paths" VRes = {} NaiveMax = 0 Mutant = "none"
+  Perturbs = {"trunc", "junk"} ValueMode = "probe2" Part = "paths" VRes = {} NaiveMax = 0 Mutant = "none"
 SPECIFICATION Spec
 INVARIANT Emit
